@@ -322,3 +322,32 @@ impl DataStorage {
         self.adapter.clone()
     }
 }
+
+// Read-only accessors for the external verification harness (compiled only with `--cfg melda_verif`)
+#[cfg(melda_verif)]
+impl DataStorage {
+    /// Digests held by the object cache, most recently used first
+    pub fn verif_cache_keys(&self) -> Vec<String> {
+        self.cache
+            .lock()
+            .unwrap()
+            .iter()
+            .map(|(k, _)| k.clone())
+            .collect()
+    }
+
+    /// Digests of the staged objects (sorted)
+    pub fn verif_stage_keys(&self) -> Vec<String> {
+        let mut v: Vec<String> = self.stage.iter().map(|(k, _)| k.clone()).collect();
+        v.sort();
+        v
+    }
+
+    /// Index of committed objects: digest -> (pack, offset, length)
+    pub fn verif_committed_objects(&self) -> std::collections::BTreeMap<String, (String, usize, usize)> {
+        self.committed_objects
+            .iter()
+            .map(|(k, v)| (k.clone(), v.clone()))
+            .collect()
+    }
+}
